@@ -742,7 +742,7 @@ fn spawn_doc(trivia: &Trivia, func: &Term) -> Doc {
                 Some(body) => pretty::concat(vec![pretty::text(head), block_doc(trivia, body)]),
             }
         }
-        other => pretty::text(format!("@{}", render_term_atom(other))),
+        other => pretty::concat(vec![pretty::text("@"), term_doc(trivia, other)]),
     }
 }
 
